@@ -839,6 +839,11 @@ def rule_sib1(ctx: Ctx, include_sort: bool = True) -> RuleResult:
         # enumerate((required, optional)), or the pairs written out: ((False, required), (True, optional)) / (0, ..), (1, ..)
         if norm(it) in ("enumerate((required, optional))", "enumerate([required, optional])"):
             return True
+        # zip((False, True), (required, optional))
+        if isinstance(it, ast.Call) and norm(it.func) == "zip" and len(it.args) == 2 and all(isinstance(a, (ast.Tuple, ast.List)) and len(a.elts) == 2 for a in it.args):
+            fl, gr = it.args
+            return norm(gr.elts[0]) == "required" and norm(gr.elts[1]) == "optional" and all(isinstance(e, ast.Constant) for e in fl.elts) \
+                and not fl.elts[0].value and bool(fl.elts[1].value)
         if isinstance(it, (ast.Tuple, ast.List)) and len(it.elts) == 2 and all(isinstance(e, ast.Tuple) and len(e.elts) == 2 for e in it.elts):
             (f0, g0), (f1, g1) = it.elts[0].elts, it.elts[1].elts
             return norm(g0) == "required" and norm(g1) == "optional" and isinstance(f0, ast.Constant) and isinstance(f1, ast.Constant) \
